@@ -2,6 +2,7 @@ import Pathrs.Proofs.Props.C13
 import Pathrs.Proofs.Rely
 import Pathrs.Proofs.KProbe
 import Pathrs.Proofs.RunsWorld
+import Pathrs.Proofs.MkExact
 
 /-!
 # C12 — `mkdir_all` creates exactly the missing directories and converges under races
@@ -36,6 +37,12 @@ import Pathrs.Proofs.RunsWorld
   path (`pfx … j = ok handle`, `pfx … (j+1) = ENOENT`) and exactly the remaining components that are
   not `""`/`"."` (`remainingParts rem = (comps.drop j).filter nd`); or, when the whole path resolves,
   that object and nothing to create.
+
+* `C12_exact` (sequential refinement against the mutable kernel state `KS`, `Proofs/MkExact.lean`): alone on the
+  tree, the creating loop succeeds, returns the directory at the end of the chain, and the final state *is* the
+  initial one with one `mkdirat` for every component that was missing, in order (`chainAdd`) — nothing else differs;
+  what existed is untouched and every new entry is a directory (`C12_exact_adds`); when the whole chain exists nothing
+  changes (`C12_exact_existing`).
 
 The frame condition on the real filesystem, the requested mode and the agreement of racing
 callers through the partial lookup are decided by the effect oracle and the racing-threads
@@ -258,4 +265,23 @@ theorem C12_target_is_spec {w : World} (hw : w.WF) (r : Resolver) (path : Bytes)
         exact ⟨jk, by rw [hd.1]; exact t1, t2, by rw [hd.2]; exact t3⟩
       · simp only [hen, ↓reduceIte, run_bind'_simp, run_do_liftP, run_do_throw] at hd
         cases hd
+
+/-! ### exactly the missing directories -/
+
+open MkExact in
+theorem C12_exact (perm : Nat) (parts : List Bytes) (cur : Fd) (w : KS) (ha : Alloc w) (hc : 0 ≤ cur)
+    (hd : w.isDir cur = true) (hns : ∀ p ∈ parts, Path.containsSlash p = false) (hpre : Pre w cur parts) :
+    ∃ fd, execK w (Root.mkdirLoop perm cur parts) = (chainAdd w cur parts, .ok fd) ∧
+      kwalk (chainAdd w cur parts) cur parts = some fd :=
+  mkdirLoop_exact perm parts cur w ha hc hd hns hpre
+
+open MkExact in
+theorem C12_exact_adds (w : KS) (ha : Alloc w) (cur : Fd) (parts : List Bytes) (hd : w.isDir cur = true)
+    (hpre : Pre w cur parts) : AddsDirs w (chainAdd w cur parts) ∧ Alloc (chainAdd w cur parts) :=
+  chainAdd_adds w ha cur parts hd hpre
+
+open MkExact in
+theorem C12_exact_existing (w : KS) (cur fd : Fd) (parts : List Bytes) (h : kwalk w cur parts = some fd) :
+    chainAdd w cur parts = w :=
+  chainAdd_existing w cur fd parts h
 
